@@ -346,7 +346,9 @@ static float penaltyAfter(const ColoquinteParameters &p, long long updates) {
 // have left the numeric box of the C06 statement (distances >= 0.1; the parameter check itself
 // refuses approximation distances above 1e3) or the penalty-to-cutoff ratio — the weight of the
 // penalty terms in the linear system — has reached 2^64 ~ sqrt(FLT_MAX), from where its square is
-// not a single-precision number (the conjugate-gradient solver works with squared norms).
+// not a single-precision number (the conjugate-gradient solver works with squared norms), or has fallen
+// to 2^-24, below the single-precision resolution of unit net weights (the penalty no longer anchors
+// the cells; inside the generator's box the initial ratio is at least 1e-5).
 // KF-C06-2 classifier, from the circuit alone: some group of movable cells connected by nets (at
 // least one net of degree >= 2) has no pin on a fixed cell.  Before the penalty terms anchor the cells
 // (the solves of GlobalPlacer::runInitialLB) the linear system of such a group is singular, and the
@@ -382,7 +384,7 @@ static Drift driftAfter(const ColoquinteParameters &p, long long k) {
   double apx = gp.continuousModel.approximationDistance * std::pow(gp.continuousModel.approximationDistanceUpdateFactor, (double)k);
   double cut = gp.penalty.cutoffDistance * std::pow(gp.penalty.cutoffDistanceUpdateFactor, (double)k);
   Drift d;
-  d.outOfBox = apx < 0.1 || apx > 1.0e3 || cut < 0.1 || !(pen / cut < 18446744073709551616.0);
+  d.outOfBox = apx < 0.1 || apx > 1.0e3 || cut < 0.1 || !(pen / cut < 18446744073709551616.0) || pen / cut <= 1.0 / 16777216.0;
   std::ostringstream os;
   os << "penalty " << pen << ", cutoff distance " << cut << ", approximation distance " << apx
      << (d.outOfBox ? " (outside the numeric box)" : " (inside the numeric box)");
